@@ -176,6 +176,9 @@ impl Deserializable for Kernel {
     fn read_from<R: ByteReader>(source: &mut R) -> Result<Self, DeserializationError> {
         let len = source.read_u16()?.into();
         let kernel = source.read_many::<Digest>(len)?;
-        Ok(Self(kernel))
+        // the same rules as for a kernel built from procedure hashes apply to one read from bytes
+        // (at most MAX_KERNEL_PROCEDURES procedures, no duplicates, canonical order); otherwise a
+        // value would be accepted which can not be serialized again
+        Self::new(&kernel).map_err(|err| DeserializationError::InvalidValue(format!("{err}")))
     }
 }
